@@ -51,6 +51,15 @@ def stf_prop(targets, mask, assumptions, rule_extra=""):
             "rule": STF_RULE + rule_extra, "assumptions": assumptions}
 
 PROPS.update({
+    "C02": stf_prop(["STF/Proofs/Coins.vo"], ST_COINS | ST_CODE | ST_TXS,
+                    ["distinct transactions have distinct hashes and dedup markers are not output coin ids (hash-oracle assumptions of the set equation)",
+                     "rejection leaves the state unchanged: checked on the real code after every rejected batch (coin root, transaction set)"]),
+    "C15": stf_prop(["STF/Proofs/Pool.vo", "STF/Proofs/SealCoins.vo"], ST_COINS | ST_POOLS,
+                    ["sums below 2^128 (the supply bound of C09) in the arithmetic theorems", "PoolKey::from_bytes result is an oracle field; its canonicality test is modelled"]),
+    "C16": stf_prop(["STF/Proofs/Pool.vo"], ST_POOLS | ST_COINS,
+                    ["the two state-level invariants (built-in pools positive, tokens <= recorded liquidity) are evaluated on every sealed state of the stream; proved: the per-operation arithmetic they rest on"]),
+    "C20": stf_prop(["STF/Proofs/Counts.vo"], ST_COUNTS | ST_COINS,
+                    ["count keys and coin keys live in the same SMT: assumed distinct (hash oracle)", "batch-level theorem assumes the coins a batch creates have fresh, distinct ids"]),
     "C05": stf_prop(["STF/Proofs/Fees.vo"], ST_FEES | ST_COINS | ST_CODE,
                     ["serialized length of a transaction (stdcode) is an oracle field taken from the real crate", "saturating u128 sums: exact under the 2^127 supply bound"]),
     "C06": stf_prop(["STF/Proofs/Block.vo"], ST_ALL,
@@ -74,6 +83,14 @@ def _stf_text(text, note, technique):
     return {"text": text, "note": note + " Model tied to the code by replaying every recorded step of the stf stream on the Gallina model (full-state comparison) and by evaluating the property's boolean reflection on the implementation's own before/after states.", "technique": technique}
 
 MANIFEST_TEXT = {
+    "C02": _stf_text("Coq theorems: the coin map after an accepted batch is every insertion of the batch followed by the removal of every input; under the hash assumptions this is the set equation (inputs gone, each non-destroyed output present with exactly the declared value/covenant/data/height/denomination, markers present, every other coin untouched); acceptance implies well-formedness, no coin consumed twice, every input unspent before or created in the batch - for all states and batches.",
+                     "Hash-oracle assumptions stated as hypotheses.", "Coq proof (gmap fold lemmas, list induction) + differential replay + reflection against an independent map-based spec"),
+    "C15": _stf_text("Coq theorems: at seal every coin that is not output 0/1 of a pool request is unchanged; a pool request has kind swap/deposit/withdraw and canonical pool data (different real denominations, canonical order and encoding); swap_many pays floor(in*other'*995/(own'*1000)) on each side, keeps reserves positive, never decreases the product; pro-rata shares never exceed the total; deposit/withdraw move reserves by exactly the amounts credited/paid.",
+                     "Arithmetic theorems assume sums below 2^128.", "Coq proof (nia over N, induction over settlement loops) + differential replay + reflection"),
+    "C16": _stf_text("Coq theorems for the operations the invariants rest on (swaps keep both reserves >= 1 and the issued liquidity, partial withdrawals keep reserves >= 1, clamped deposit shares never exceed what the pool issued); the state-level invariants themselves are evaluated by the reflection on every sealed state - partial.",
+                     "Partial: invariant preservation over whole histories is checked, not proved.", "Coq proof (per-operation arithmetic) + invariant reflection on every sealed state"),
+    "C20": _stf_text("Coq theorems: the CountsOk invariant (count entry = number of coins per covenant hash, no entry for none) is preserved by insert_coin (fresh key or same covenant hash), by remove_coin (which never underflows), established by the TIP-906 activation fold, and preserved by a whole batch whose created coins have fresh ids; the reflection regroups the real coin entries after every step.",
+                     "Count keys assumed distinct from coin keys.", "Coq proof (map_fold lemmas, induction) + differential replay + reflection"),
     "C05": _stf_text("Coq theorems over the executable model of apply_tx_batch / seal: weight and minimum-fee formulas, every member of an accepted batch pays at least its minimum fee, fee pool and tips move by exactly the minimum-fee parts and remainders, the proposer reward coin is fee_pool/65536 + tips and both drop by exactly that - for all states, batches and multipliers.",
                      "The serialized size is an oracle field.", "Coq proof (induction over the batch) + differential replay + reflection"),
     "C06": _stf_text("Coq theorems: apply_block succeeds iff the transactions apply to the successor state, the result seals and the recomputed header equals the declared one; the returned state has that header; honest blocks are accepted; a differing header is rejected - for all states, blocks and root functions.",
